@@ -55,6 +55,9 @@ pub struct ItemSpec {
     /// kind = "local": the function that contains the `let <name> = <init>;` whose initializer is extracted as a const
     #[serde(rename = "fn")]
     pub in_fn: Option<String>,
+    /// emit the item inside `pub mod <out_mod> { use super::*; .. }` (consecutive items share the block): keeps two
+    /// crates' same-named types apart in the single-file crate
+    pub out_mod: Option<String>,
     /// kind = "impl_all": methods of the inherent impl(s) NOT to extract (e.g. generic serde wrappers)
     #[serde(default)]
     pub exclude: Vec<String>,
@@ -530,7 +533,22 @@ fn main() {
         }
     }
     let mut file_cache: BTreeMap<String, String> = BTreeMap::new();
+    let mut cur_mod: Option<String> = None;
+    let mut seen_mods: Vec<String> = Vec::new();
     for spec in &expanded {
+        if spec.out_mod != cur_mod {
+            if cur_mod.is_some() {
+                let _ = writeln!(out, "}} // mod");
+            }
+            if let Some(m) = &spec.out_mod {
+                if seen_mods.contains(m) {
+                    die(&format!("bad unit.json: items of module `{m}` are not consecutive"));
+                }
+                seen_mods.push(m.clone());
+                let _ = writeln!(out, "pub mod {m} {{\nuse super::*;");
+            }
+            cur_mod = spec.out_mod.clone();
+        }
         let id = item_id(spec);
         let path: &Path = &repo.join(&spec.file);
         let src = file_cache
@@ -581,7 +599,7 @@ fn main() {
             ob["item"] = json!(id);
             obligations.push(ob);
         }
-        if canary && cl.is_some() && spliced.is_fn {
+        if canary && cl.is_some() && spliced.is_fn && !cl.map(|c| c.no_canary).unwrap_or(false) {
             let base_line = cur_line(&out);
             let tw = match rules::splice(&normalized, spec, &id, cl, true, base_line, &unit.proof_prologue) {
                 Ok(s) => s,
@@ -592,15 +610,26 @@ fn main() {
         }
         line_map.push(json!({"from": l0, "to": cur_line(&out) - 1, "kind": "item", "id": id,
             "fn_name": spliced.fn_name, "contracted": cl.is_some()}));
+        let attrs: Vec<String> = {
+            let mut v = Vec::new();
+            for name in ["track_caller", "must_use", "inline"] {
+                if found.original.contains(&format!("#[{name}")) { v.push(name.to_string()); }
+            }
+            v
+        };
         meta_items.push(json!({
-            "id": id, "file": spec.file, "kind": spec.kind,
+            "id": id, "file": spec.file, "kind": spec.kind, "attrs": attrs,
             "lines": [found.line_start, found.line_end],
             "sha256": sha(&found.original),
             "rules_fired": fired,
             "contracted": cl.is_some(),
+            "no_canary": cl.map(|c| c.no_canary).unwrap_or(false),
             "fn_name": spliced.fn_name,
             "is_fn": spliced.is_fn,
         }));
+    }
+    if cur_mod.is_some() {
+        let _ = writeln!(out, "}} // mod");
     }
     for id in clauses.keys() {
         if !used_clause_ids.contains(id) {
